@@ -403,7 +403,7 @@ def block_pairing(ctx, facts, cfg):
                 ctx.violation(R, 'mis-paired:%s' % re.sub(r'\W+', '_', hshow(ia) + '~' + hshow(ib))[:60],
                               '%s zips %s with %s: the operands are not sliced identically, so block k of one is combined with a different block of the other'
                               % (p, hshow(ia), hshow(ib)), site=z.get('line') or fn.span, fn=p, cfg=cfg)
-    ctx.floor(R, 8 if cfg != 'aarch64' else 6, n, 'zips over blocks / bytes', cfg=cfg)
+    ctx.floor(R, 3, n, 'zips over blocks / bytes', cfg=cfg)      # the portable engines pair blocks with zip in mul, mul_add and xor at least
 
 
 def lane_pairing(ctx, facts, cfg):
